@@ -4,7 +4,7 @@
 set -u
 PATCH=$(realpath "$1"); shift
 cd /repo && git apply "$PATCH" || { echo "PATCH DOES NOT APPLY"; exit 2; }
-trap 'git -C /repo checkout -- . ' EXIT
+trap 'git -C /repo checkout -- . ; git -C /repo clean -fdq' EXIT
 cd /verif
 for p in "$@"; do
   ./check $p --tier ${TIER:-quick} 2>&1 | grep -E "^(VIOLATION|KNOWN|INCONCLUSIVE|C[0-9]+ )" | cut -c1-160 | sort | uniq -c | sort -rn | head -6
